@@ -2,6 +2,7 @@
 from __future__ import annotations
 
 from kfv.core import Ctx
+from kfv.rules import memo_rules as MEMO
 from kfv.rules import precond_rules as R
 
 TECHNIQUE = ('guard (control-dependence) analysis of every factor / inverse / gradient effect in step() and the hooks with '
@@ -28,3 +29,4 @@ def run(ctx: Ctx) -> None:
     ctx.do(R.rule_damparg, [f'{R.BP}.step', f'{R.BP}.load_state_dict', 'gpt_neox.preconditioner.GPTNeoXKFACPreconditioner.load_state_dict',
                          'gpt_neox.preconditioner.GPTNeoXKFACPreconditioner.load_factors_from_dir'])
     ctx.do(R.rule_own_so)
+    ctx.do(MEMO.rule_memo)
